@@ -1,4 +1,19 @@
-(* ArithProofs.v — C05, the engine tie (phase 2). *)
+(* ArithProofs.v — C05, the engine tie (phase 2): theorems about the engine model (Grammar.v,
+   Engine.v, Top.v) on the workload grammar Arith.arith_rules.
+
+   1. the reference lexer along the bytes ([lexfrom]): white space, one-byte tokens, Integer literals
+   2. tokens and values of engine nodes ([node_toks], [res_of], [arith_eval] on Select / binop nodes)
+   3. shapes of the derivations (Sound.xvalid) of the grammar's expressions; [deriv_inv]: a derivation
+      of expr / term / factor spells the tokens of a tree of the left-recursive token grammar,
+      evaluates to its value, and the lexer reads exactly those tokens from the bytes it spans
+   4. [arith_tree_value], [arith_tree_lex], [C05_eval_sound], [C05_rejects]
+   5. [no_panic] (every grammar with in-range references), termination with C02's fuel, [C05_total]
+   6. bounded acceptance by kernel computation ([C05_agree_bounded4/5], [C05_accepts_bounded])
+   7. [strip_sim]: on an input without white space the WsSpacesNl trimming wrappers are the identity
+      (every grammar)
+   8. [sp_e]: the white-space-free character-level grammar, declaratively; [spells_valid],
+      [spells_ref], [accepts_nows], [C05_accepts_nows]: acceptance on the white-space-free
+      sub-language, unbounded (through C01/C04 completeness of the trim-free grammar and 7). *)
 From Coq Require Import String List NArith ZArith Bool Arith Lia.
 From Parsley Require Import Obs Base FileSet Utf8 Reader Regex Literals LiteralProofs.
 From Parsley Require Import ArithSpec ArithSpecProofs.
@@ -780,10 +795,12 @@ Proof.
 Qed.
 
 (* ------------------------------------------------------------------ *)
-(* 6. Acceptance (completeness), bounded: for EVERY byte string of length <= 5 over
-      {1 0 - + * / ( ) space} the model of Evaluate on the real (trimming) grammar and the
-      reference agree completely — in particular every well-formed one is accepted.  Computed by
-      the kernel's VM once (66 430 runs of the engine model). *)
+(* 6. Acceptance (completeness), bounded: for EVERY byte string of length <= 4 over
+      {1 0 - + * / ( ) space} and of length <= 5 over {1 0 - / ( ) space} the model of Evaluate
+      on the real (trimming) grammar and the reference agree completely — in particular every
+      well-formed one is accepted.  Computed by the kernel's VM, once each (7 381 + 19 608 runs of
+      the engine model, about half a minute).  Everything around the two computations is generic
+      in the fuel and the alphabet, so that no conversion ever touches the closed terms. *)
 
 Fixpoint strings (alpha : list N) (n : nat) : list (list N) :=
   match n with
@@ -807,6 +824,7 @@ Proof.
     + left. apply IH; [exact Hs|lia].
 Qed.
 
+(* complete agreement of the model's Evaluate with the reference on one input (file at offset 1) *)
 Definition agree_b (fuel : nat) (s : list N) : bool :=
   match arith_evaluate (mk_input s 1) fuel, arith_ref s 1 with
   | Ok (EvValue (ValLit (VInt z))), Some (AV z') => Z.eqb z z'
@@ -814,33 +832,498 @@ Definition agree_b (fuel : nat) (s : list N) : bool :=
   | Ok (EvParseErr _), None => true
   | _, _ => false
   end.
-Definition alpha9 : list N := [49; 48; 45; 43; 42; 47; 40; 41; 32].
-Definition ext_ok (fuel : nat) (alpha : list N) (s : list N) : bool := forallb (fun a => agree_b fuel (a :: s)) alpha.
 
-Lemma bounded4 : forallb (agree_b 4000) (strings alpha9 4) = true.
-Proof. vm_cast_no_check (eq_refl true). Qed.
-Lemma bounded5 : forallb (ext_ok 4000 alpha9) (filter (fun s => Nat.eqb (length s) 4) (strings alpha9 4)) = true.
-Proof. vm_cast_no_check (eq_refl true). Qed.
-
-Theorem C05_agree_bounded : forall s,
-  Forall (fun b => In b alpha9) s -> (length s <= 5)%nat -> agree_b 4000 s = true.
+Lemma agree_from fuel alpha n :
+  forallb (agree_b fuel) (strings alpha n) = true ->
+  forall s, Forall (fun b => In b alpha) s -> (length s <= n)%nat -> agree_b fuel s = true.
 Proof.
-  intros s Hs Hl. destruct (Nat.eq_dec (length s) 5) as [E|E].
-  - destruct s as [|a s']; [discriminate|]. cbn [length] in E. inversion Hs as [|x l Ha Hs']; subst.
-    pose proof bounded5 as H. rewrite forallb_forall in H.
-    assert (Hin : In s' (filter (fun s => Nat.eqb (length s) 4) (strings alpha9 4))).
-    { apply filter_In. split; [apply strings_complete; [exact Hs'|lia]|apply Nat.eqb_eq; lia]. }
-    specialize (H s' Hin). unfold ext_ok in H. rewrite forallb_forall in H. exact (H a Ha).
-  - pose proof bounded4 as H. rewrite forallb_forall in H. apply H. apply strings_complete; [exact Hs|lia].
+  intros Hb s Hs Hl. exact (proj1 (forallb_forall _ _) Hb s (strings_complete alpha n s Hs Hl)).
 Qed.
 
-(* C05_accepts, bounded form: every well-formed expression of at most 5 bytes over that alphabet is
-   accepted by the model of Evaluate (value or division by zero, never a parse error). *)
-Corollary C05_accepts_bounded : forall s v,
-  Forall (fun b => In b alpha9) s -> (length s <= 5)%nat -> arith_ref s 1 = Some v ->
-  exists ev, arith_evaluate (mk_input s 1) 4000 = Ok ev /\ forall e, ev <> EvParseErr e.
+Lemma agree_accepts fuel s v :
+  agree_b fuel s = true -> arith_ref s 1 = Some v ->
+  exists ev, arith_evaluate (mk_input s 1) fuel = Ok ev /\ forall e, ev <> EvParseErr e.
 Proof.
-  intros s v Hs Hl Hr. pose proof (C05_agree_bounded s Hs Hl) as H. unfold agree_b in H. rewrite Hr in H.
-  destruct (arith_evaluate (mk_input s 1) 4000) as [ev| |]; try discriminate.
+  unfold agree_b. intros H Hr. rewrite Hr in H.
+  destruct (arith_evaluate (mk_input s 1) fuel) as [ev| |]; try discriminate.
   exists ev. split; [reflexivity|]. intros e ->. destruct v; discriminate.
+Qed.
+
+Definition alpha9 : list N := [49; 48; 45; 43; 42; 47; 40; 41; 32].      (* 1 0 - + * / ( ) space *)
+Definition alpha7 : list N := [49; 48; 45; 47; 40; 41; 32].              (* 1 0 - / ( ) space *)
+Definition FUEL5 : nat := 5000.      (* above the C02 bound for 5 bytes, 4860 *)
+
+Lemma bounded4 : forallb (agree_b FUEL5) (strings alpha9 4) = true.
+Proof. vm_cast_no_check (eq_refl true). Qed.
+Lemma bounded5 : forallb (agree_b FUEL5) (strings alpha7 5) = true.
+Proof. vm_cast_no_check (eq_refl true). Qed.
+
+Theorem C05_agree_bounded4 : forall s,
+  Forall (fun b => In b alpha9) s -> (length s <= 4)%nat -> agree_b FUEL5 s = true.
+Proof. exact (agree_from FUEL5 alpha9 4 bounded4). Qed.
+Theorem C05_agree_bounded5 : forall s,
+  Forall (fun b => In b alpha7) s -> (length s <= 5)%nat -> agree_b FUEL5 s = true.
+Proof. exact (agree_from FUEL5 alpha7 5 bounded5). Qed.
+
+(* C05_accepts, bounded form: every well-formed expression of at most 4 (5) bytes over those
+   alphabets is accepted by the model of Evaluate (value or division by zero, never a parse error) *)
+Corollary C05_accepts_bounded : forall s v,
+  (Forall (fun b => In b alpha9) s /\ (length s <= 4)%nat) \/
+  (Forall (fun b => In b alpha7) s /\ (length s <= 5)%nat) ->
+  arith_ref s 1 = Some v ->
+  exists ev, arith_evaluate (mk_input s 1) FUEL5 = Ok ev /\ forall e, ev <> EvParseErr e.
+Proof.
+  intros s v [[Hs Hl]|[Hs Hl]] Hr.
+  - exact (agree_accepts FUEL5 s v (C05_agree_bounded4 s Hs Hl) Hr).
+  - exact (agree_accepts FUEL5 s v (C05_agree_bounded5 s Hs Hl) Hr).
+Qed.
+
+(* ------------------------------------------------------------------ *)
+(* 7. On an input without white space, LeftTrim/RightTrim in mode WsSpacesNl are the identity:
+      the engine run on a grammar equals the run on the grammar with those wrappers removed —
+      same results, same errors, same context (cache, calls, logs). *)
+
+Fixpoint strip (e : pexpr) : pexpr :=
+  match e with
+  | PLeftTrim WsSpacesNl p | PRightTrim WsSpacesNl p => strip p
+  | PLeftTrim m p => PLeftTrim m (strip p)
+  | PRightTrim m p => PRightTrim m (strip p)
+  | PMemo i p => PMemo i (strip p)
+  | PAny ps => PAny (map strip ps)
+  | PChoice ps => PChoice (map strip ps)
+  | POpt p => POpt (strip p)
+  | PSeq k ip s nm ps => PSeq k ip s nm (map strip ps)
+  | PName nm p => PName nm (strip p)
+  | PSuppress p => PSuppress (strip p)
+  | PSingle p => PSingle (strip p)
+  | PTerm _ | PEmpty | PEnd | PRef _ => e
+  end.
+Definition is_nl_trim (e : pexpr) : bool :=
+  match e with PLeftTrim WsSpacesNl _ | PRightTrim WsSpacesNl _ => true | _ => false end.
+Definition qstrip (q : seqinfo) : seqinfo :=
+  {| q_kind := q_kind q; q_ip := q_ip q; q_single := q_single q; q_ps := map strip (q_ps q) |}.
+Definition nows (inp : input) : Prop := forallb (fun b => negb (is_ws b)) (i_data inp) = true.
+
+Lemma forallb_skipn {A} (f : A -> bool) (l : list A) : forall k, forallb f l = true -> forallb f (skipn k l) = true.
+Proof.
+  induction l as [|x l IH]; intros k H; [rewrite skipn_nil; reflexivity|].
+  destruct k as [|k]; [exact H|]. cbn [skipn]. cbn [forallb] in H. apply andb_true_iff in H. apply IH, H.
+Qed.
+
+Section Strip.
+  Variable inp : input.
+  Variable rules : list pexpr.
+  Hypothesis Hnows : nows inp.
+  Notation rules' := (map strip rules).
+
+  Lemma skip_ws_nows pos : skip_ws inp pos WsSpacesNl = (pos, None).
+  Proof.
+    unfold skip_ws.
+    pose proof (forallb_skipn _ (i_data inp) (N.to_nat (pos - i_offset inp)) Hnows) as H.
+    destruct (skipn (N.to_nat (pos - i_offset inp)) (i_data inp)) as [|b t]; [reflexivity|].
+    cbn [forallb] in H. apply andb_true_iff in H. destruct H as [Hb _]. apply negb_true_iff in Hb.
+    cbn [ws_scan]. rewrite Hb. reflexivity.
+  Qed.
+
+  Lemma set_rpos_same n : set_rpos n (node_rpos n) = n.
+  Proof. destruct n; reflexivity. Qed.
+
+  Lemma trim_nodes_nows ns : trim_nodes inp WsSpacesNl ns None = (ns, None).
+  Proof.
+    induction ns as [|n ns IH]; [reflexivity|].
+    destruct n as [t v p r|p|p|t ip cs p r]; cbn [trim_nodes node_rpos];
+      try (rewrite skip_ws_nows, IH; reflexivity).
+    rewrite IH. reflexivity.
+  Qed.
+
+  Lemma set_error_same c ce pos :
+    cerr c = Some ce -> epos ce = pos -> set_error c (Some (mk_err pos (ecause ce))) = c.
+  Proof.
+    intros H1 H2. destruct c as [ca ce0 cl gb gf]. cbn [cerr] in H1. subst ce0. destruct ce as [ep ec].
+    cbn [epos] in H2. subst ep. unfold set_error, mk_err. cbn [cache cerr calls g_bodies g_fails max_err epos ecause].
+    rewrite N.leb_refl. reflexivity.
+  Qed.
+
+  Definition pstrip (r r' : ptype) : Prop :=
+    forall e c stk l p y, r e c stk l p = y -> y <> OutOfFuel -> r' (strip e) c stk l p = y.
+  Definition sstrip (r r' : stype) : Prop :=
+    forall q d c stk l p m st y, r q d c stk l p m st = y -> y <> OutOfFuel -> r' (qstrip q) d c stk l p m st = y.
+
+  Lemma seq_lookup_strip k ps d : seq_lookup k (map strip ps) d = option_map strip (seq_lookup k ps d).
+  Proof.
+    destruct k; cbn [seq_lookup]; rewrite nth_error_map; reflexivity.
+  Qed.
+
+  Section Step.
+    Variables (rp rp' : ptype) (rs rs' : stype).
+    Hypothesis Hp : pstrip rp rp'.
+    Hypothesis Hs : sstrip rs rs'.
+
+    Ltac step :=
+      match goal with
+      | Hy : bind ?o _ <> OutOfFuel |- _ =>
+        let E := fresh "E" in let a := fresh "a" in
+        destruct o as [a| |] eqn:E;
+        [ first [ rewrite (Hp _ _ _ _ _ _ E) by discriminate | rewrite (Hs _ _ _ _ _ _ _ _ _ E) by discriminate ];
+          cbn [bind] in *
+        | first [ rewrite (Hp _ _ _ _ _ _ E) by discriminate | rewrite (Hs _ _ _ _ _ _ _ _ _ E) by discriminate ];
+          reflexivity
+        | exfalso; apply Hy; reflexivity ]
+      end.
+
+    Lemma any_loop_strip stk l p ps : forall c cp res err nf,
+      any_loop rp stk l p ps c cp res err nf <> OutOfFuel ->
+      any_loop rp' stk l p (map strip ps) c cp res err nf = any_loop rp stk l p ps c cp res err nf.
+    Proof.
+      induction ps as [|q ps IH]; intros c cp res err nf Hy; cbn [any_loop map] in *; [reflexivity|].
+      step. destruct a as [[[res2 cp2] err2] c'].
+      destruct (alt_err p err nf err2) as [err' nf']. apply IH; assumption.
+    Qed.
+
+    Lemma choice_loop_strip stk l p ps : forall c cp err nf,
+      choice_loop rp stk l p ps c cp err nf <> OutOfFuel ->
+      choice_loop rp' stk l p (map strip ps) c cp err nf = choice_loop rp stk l p ps c cp err nf.
+    Proof.
+      induction ps as [|q ps IH]; intros c cp err nf Hy; cbn [choice_loop map] in *; [reflexivity|].
+      step. destruct a as [[[res2 cp2] err2] c'].
+      destruct (alt_err p err nf err2) as [err' nf'].
+      destruct res2; [apply IH; assumption|reflexivity].
+    Qed.
+
+    Lemma parse_step_strip e c stk l p :
+      is_nl_trim e = false ->
+      parse_step inp rules rp rs e c stk l p <> OutOfFuel ->
+      parse_step inp rules' rp' rs' (strip e) c stk l p = parse_step inp rules rp rs e c stk l p.
+    Proof.
+      intros Hnt Hy. destruct e; cbn [parse_step strip] in *; try reflexivity.
+      - (* PRef *) unfold nth_N in *. rewrite nth_error_map.
+        destruct (nth_error rules (N.to_nat k)) as [body|]; cbn [option_map]; [|reflexivity].
+        apply (Hp _ _ _ _ _ _ eq_refl Hy).
+      - (* PMemo *) destruct (cache_get c idx p l); [reflexivity|].
+        destruct (remaining inp p + 1 <? map_get idx l); [reflexivity|].
+        step. reflexivity.
+      - apply any_loop_strip; assumption.
+      - apply choice_loop_strip; assumption.
+      - (* POpt *) step. reflexivity.
+      - (* PSeq *)
+        change {| q_kind := k; q_ip := ip; q_single := single; q_ps := map strip ps |}
+          with (qstrip {| q_kind := k; q_ip := ip; q_single := single; q_ps := ps |}).
+        step. reflexivity.
+      - (* PName *) step. reflexivity.
+      - (* PLeftTrim *) destruct m; try discriminate; cbn [parse_step];
+          (destruct (skip_ws inp p _) as [pos1 wserr]; step; reflexivity).
+      - (* PRightTrim *) destruct m; try discriminate; cbn [parse_step]; (step; reflexivity).
+      - (* PSuppress *) step. reflexivity.
+      - (* PSingle *) step. reflexivity.
+    Qed.
+
+    Lemma alts_loop_strip q d stk l p m prefix ns : forall st c,
+      alts_loop rs q d stk l p m prefix ns st c <> OutOfFuel ->
+      alts_loop rs' (qstrip q) d stk l p m prefix ns st c = alts_loop rs q d stk l p m prefix ns st c.
+    Proof.
+      induction ns as [|n ns IH]; intros st c Hy; cbn [alts_loop] in *; [reflexivity|].
+      step. destruct a as [[stop st'] c'].
+      destruct stop; [reflexivity|apply IH; assumption].
+    Qed.
+
+    Lemma seq_step_strip : sstrip (seq_step rp rs) (seq_step rp' rs').
+    Proof.
+      intros q d c stk l p m st y H Hy. subst y. unfold seq_step in *.
+      cbn [qstrip q_kind q_ps]. rewrite seq_lookup_strip, map_length.
+      destruct (seq_lookup (q_kind q) (q_ps q) d) as [sub|]; cbn [option_map].
+      - step. destruct a as [[[res cp] err] c1].
+        destruct res; [reflexivity|]. apply alts_loop_strip; assumption.
+      - cbn [bind] in *. reflexivity.
+    Qed.
+  End Step.
+
+  Theorem strip_sim : forall f,
+    pstrip (parse inp rules f) (parse inp rules' f) /\ sstrip (seqp inp rules f) (seqp inp rules' f).
+  Proof.
+    induction f as [|f [IHp IHs]].
+    - split; intros until y; intros H Hy; cbn in H; congruence.
+    - split.
+      + intros e c stk l p y H Hy.
+        destruct (is_nl_trim e) eqn:Ent.
+        * (* a WsSpacesNl trim: the identity here *)
+          assert (Hsame : parse inp rules f (match e with PLeftTrim _ q | PRightTrim _ q => q | _ => e end) c stk l p = y
+                          /\ strip e = strip (match e with PLeftTrim _ q | PRightTrim _ q => q | _ => e end)).
+          { destruct e; try discriminate; destruct m; try discriminate; (split; [|reflexivity]);
+              rewrite parse_S in H; cbn [parse_step] in H.
+            - rewrite skip_ws_nows in H.
+              destruct (bind_done _ _ _ H Hy) as [[E ->]|[[[[res cp] err] c'] [E Hk]]]; [exact E|].
+              rewrite E. rewrite <- Hk.
+              assert (Hc : match cerr c' with
+                           | Some ce => if (epos ce =? p) && is_notfound ce
+                                        then set_error c' (Some (mk_err p (ecause ce))) else c'
+                           | None => c'
+                           end = c').
+              { destruct (cerr c') as [ce|] eqn:Ece; [|reflexivity].
+                destruct ((epos ce =? p) && is_notfound ce) eqn:Eb; [|reflexivity].
+                apply andb_true_iff in Eb. destruct Eb as [Eb _]. apply N.eqb_eq in Eb.
+                apply set_error_same; assumption. }
+              rewrite Hc. destruct err; reflexivity.
+            - destruct (bind_done _ _ _ H Hy) as [[E ->]|[[[[res cp] err] c'] [E Hk]]]; [exact E|].
+              rewrite E. rewrite <- Hk. destruct err as [e0|].
+              + rewrite skip_ws_nows. cbn [fst]. rewrite N.ltb_irrefl. destruct (is_wserr e0); reflexivity.
+              + rewrite trim_nodes_nows. reflexivity. }
+          destruct Hsame as [Hrun Hst]. rewrite Hst.
+          destruct (fuel_mono_S inp rules' f) as [Hm _].
+          apply Hm; [|exact Hy]. apply (IHp _ _ _ _ _ _ Hrun Hy).
+        * rewrite parse_S in *. subst y. apply parse_step_strip; assumption.
+      + intros q d c stk l p m st y H Hy. rewrite seqp_S in *.
+        revert H Hy. apply seq_step_strip; assumption.
+  Qed.
+End Strip.
+
+From Parsley Require Import TermTok Complete Pump.
+
+(* ------------------------------------------------------------------ *)
+(* 8. Acceptance on the white-space-free sub-language, unbounded.
+      [sp_e inp e p q]: the bytes from p to q spell the tree e without any white space — the
+      character-level grammar, declaratively. *)
+
+Section Spells.
+  Variable inp : input.
+
+  Inductive sp_f : fexp -> N -> N -> Prop :=
+  | SpInt z p q :
+      p < q -> int_lexeme (suf inp p) = Some (q - p) ->
+      starts_with_byte 46 (drop (q - p) (suf inp p)) = false ->
+      parse_int_base0 (take (q - p) (suf inp p)) = Some z -> sp_f (FInt z p) p q
+  | SpPar pl e pr :
+      byte_at inp pl = Some 40 -> sp_e e (pl + 1) pr -> byte_at inp pr = Some 41 ->
+      sp_f (FPar pl e pr) pl (pr + 1)
+  with sp_t : texp -> N -> N -> Prop :=
+  | SpFct f p q : sp_f f p q -> sp_t (TFct f) p q
+  | SpMul t o po f p q :
+      sp_t t p po -> byte_at inp po = Some (mul_code o) -> sp_f f (po + 1) q -> sp_t (TMul t o po f) p q
+  with sp_e : eexp -> N -> N -> Prop :=
+  | SpTrm t p q : sp_t t p q -> sp_e (ETrm t) p q
+  | SpAdd e o po t p q :
+      sp_e e p po -> byte_at inp po = Some (add_code o) -> sp_t t (po + 1) q -> sp_e (EAdd e o po t) p q.
+End Spells.
+
+Scheme sp_f_ind2 := Minimality for sp_f Sort Prop
+  with sp_t_ind2 := Minimality for sp_t Sort Prop
+  with sp_e_ind2 := Minimality for sp_e Sort Prop.
+Combined Scheme sp_mutind from sp_f_ind2, sp_t_ind2, sp_e_ind2.
+
+Section Accept.
+  Variable inp : input.
+  Hypothesis Hbytes : bytes_ok (i_data inp).
+  Notation rules' := (map strip arith_rules).
+  Definition site' (i : N) : option pexpr := option_map strip (arith_site i).
+  Definition factor' : pexpr := strip factor_p.
+
+  Lemma term_parse_int p n z :
+    i_offset inp <= p -> int_lexeme (suf inp p) = Some n ->
+    starts_with_byte 46 (drop n (suf inp p)) = false ->
+    parse_int_base0 (take n (suf inp p)) = Some z ->
+    term_parse inp (TLit LInteger) p = ([NTerm (lit_token LInteger) (VInt z) p (p + n)], None).
+  Proof.
+    intros Hlo Hl Hdot Hv.
+    pose proof (int_lexeme_le _ _ Hl) as [Hn1 Hn2].
+    assert (Hhi : p <= i_fend inp).
+    { unfold suf in Hn2. rewrite skipn_len_N in Hn2. unfold i_fend, i_len. lia. }
+    pose proof (term_parse_lit_spec inp LInteger p eq_refl Hbytes (conj Hlo Hhi)) as Hs.
+    assert (Hspec : lit_spec (i_cf inp) (i_cd inp) LInteger (suffix (i_data inp) (p - i_offset inp)) = SNode n (Literals.VInt z)).
+    { cbn [lit_spec]. unfold spec_integer. change (suffix (i_data inp) (p - i_offset inp)) with (suf inp p).
+      rewrite Hl, Hdot, Hv. reflexivity. }
+    destruct (term_parse inp (TLit LInteger) p) as [[|[tok v p0 r| | |] [|n2 ns]] [e|]]; try contradiction.
+    - destruct Hs as (_ & _ & nf & Hs & _). rewrite Hspec in Hs. discriminate.
+    - destruct Hs as (-> & -> & Hlt & Hle & lv & Hs & ->). rewrite Hspec in Hs. inversion Hs; subst.
+      replace (p + (r - p)) with r by lia. reflexivity.
+  Qed.
+
+  Lemma term_parse_rune p c : byte_at inp p = Some c ->
+    term_parse inp (TRune c) p = ([NTerm [c] (VRune c) p (p + 1)], None).
+  Proof. intros H. cbn [term_parse]. rewrite H, N.eqb_refl. reflexivity. Qed.
+
+  Notation vd := (valid inp rules').
+
+  (* every spelled tree has a derivation in the trim-free grammar, ending where the spelling ends *)
+  Lemma spells_valid :
+    (forall f p q, sp_f inp f p q -> i_offset inp <= p ->
+        exists d, vd factor' p d /\ dend d = q /\ p < q) /\
+    (forall t p q, sp_t inp t p q -> i_offset inp <= p ->
+        exists d, vd (PRef 1) p d /\ dend d = q /\ p < q) /\
+    (forall e p q, sp_e inp e p q -> i_offset inp <= p ->
+        exists d, vd (PRef 0) p d /\ dend d = q /\ p < q).
+  Proof.
+    apply sp_mutind.
+    - (* integer *)
+      intros z p q Hlt Hl Hdot Hv Hlo.
+      pose proof (term_parse_int p (q - p) z Hlo Hl Hdot Hv) as Ht.
+      replace (p + (q - p)) with q in Ht by lia.
+      exists (DAlt 0 (DTerm (NTerm (lit_token LInteger) (VInt z) p q))). split; [|split; [reflexivity|exact Hlt]].
+      eapply VAny; [reflexivity|]. apply VTerm. exact Ht.
+    - (* ( e ) *)
+      intros pl e pr Hb1 _ IH Hb2 Hlo.
+      destruct (IH ltac:(lia)) as (d & Hd & He & Hlt).
+      exists (DAlt 1 (DSeq {| q_kind := SeqOf; q_ip := ISelect 1; q_single := false;
+                              q_ps := [PTerm (TRune 40); PRef 0; PTerm (TRune 41)] |} pl
+                           [DTerm (NTerm [40] (VRune 40) pl (pl + 1)); d; DTerm (NTerm [41] (VRune 41) pr (pr + 1))])).
+      split; [|split; [reflexivity|lia]].
+      eapply VAny; [reflexivity|]. apply VSeq; [|reflexivity].
+      eapply VScons; [reflexivity|apply VTerm; apply term_parse_rune; exact Hb1|].
+      eapply VScons; [reflexivity|exact Hd|]. rewrite He.
+      eapply VScons; [reflexivity|apply VTerm; apply term_parse_rune; exact Hb2|]. apply VSnil.
+    - (* term = factor *)
+      intros f p q _ IH Hlo. destruct (IH Hlo) as (d & Hd & He & Hlt).
+      exists (DRef 1 (DMemo 2 (DAlt 1 d))). split; [|split; [exact He|exact Hlt]].
+      eapply VRef; [reflexivity|]. apply VMemo. eapply VAny; [reflexivity|]. exact Hd.
+    - (* term * factor *)
+      intros t o po f p q _ IHt Hb _ IHf Hlo.
+      destruct (IHt Hlo) as (d1 & Hd1 & He1 & Hlt1).
+      destruct (IHf ltac:(lia)) as (d3 & Hd3 & He3 & Hlt3).
+      exists (DRef 1 (DMemo 2 (DAlt 0 (DSeq {| q_kind := SeqOf; q_ip := IUser 1; q_single := false;
+                                               q_ps := [PRef 1; PAny [PTerm (TRune 42); PTerm (TRune 47)]; factor'] |} p
+           [d1; DAlt (match o with Times => 0 | Divide => 1 end)
+                     (DTerm (NTerm [mul_code o] (VRune (mul_code o)) po (po + 1))); d3])))).
+      split; [|split; [exact He3|lia]].
+      eapply VRef; [reflexivity|]. apply VMemo. eapply VAny; [reflexivity|]. apply VSeq; [|reflexivity].
+      eapply VScons; [reflexivity|exact Hd1|]. rewrite He1.
+      eapply VScons; [reflexivity| |].
+      { destruct o; (eapply VAny; [reflexivity|]); apply VTerm; apply term_parse_rune; exact Hb. }
+      change (dend (DAlt (match o with Times => 0%nat | Divide => 1%nat end)
+                         (DTerm (NTerm [mul_code o] (VRune (mul_code o)) po (po + 1))))) with (po + 1).
+      eapply VScons; [reflexivity|exact Hd3|]. apply VSnil.
+    - (* expr = term *)
+      intros t p q _ IH Hlo. destruct (IH Hlo) as (d & Hd & He & Hlt).
+      exists (DRef 0 (DMemo 1 (DAlt 1 d))). split; [|split; [exact He|exact Hlt]].
+      eapply VRef; [reflexivity|]. apply VMemo. eapply VAny; [reflexivity|]. exact Hd.
+    - (* expr + term *)
+      intros e o po t p q _ IHe Hb _ IHt Hlo.
+      destruct (IHe Hlo) as (d1 & Hd1 & He1 & Hlt1).
+      destruct (IHt ltac:(lia)) as (d3 & Hd3 & He3 & Hlt3).
+      exists (DRef 0 (DMemo 1 (DAlt 0 (DSeq {| q_kind := SeqOf; q_ip := IUser 1; q_single := false;
+                                               q_ps := [PRef 0; PAny [PTerm (TRune 43); PTerm (TRune 45)]; PRef 1] |} p
+           [d1; DAlt (match o with Plus => 0 | Minus => 1 end)
+                     (DTerm (NTerm [add_code o] (VRune (add_code o)) po (po + 1))); d3])))).
+      split; [|split; [exact He3|lia]].
+      eapply VRef; [reflexivity|]. apply VMemo. eapply VAny; [reflexivity|]. apply VSeq; [|reflexivity].
+      eapply VScons; [reflexivity|exact Hd1|]. rewrite He1.
+      eapply VScons; [reflexivity| |].
+      { destruct o; (eapply VAny; [reflexivity|]); apply VTerm; apply term_parse_rune; exact Hb. }
+      change (dend (DAlt (match o with Plus => 0%nat | Minus => 1%nat end)
+                         (DTerm (NTerm [add_code o] (VRune (add_code o)) po (po + 1))))) with (po + 1).
+      eapply VScons; [reflexivity|exact Hd3|]. apply VSnil.
+  Qed.
+End Accept.
+
+Section Accept2.
+  Variable inp : input.
+  Hypothesis Hbytes : bytes_ok (i_data inp).
+  Notation rules' := (map strip arith_rules).
+
+  (* the declarative spelling agrees with the reference's lexer: the reference accepts what is
+     spelled, with the tree's value *)
+  Lemma spells_lex :
+    (forall f p q, sp_f inp f p q -> i_offset inp <= p ->
+        lexfrom inp p false = tapp (ftoks f) (lexfrom inp q true) /\ p < q) /\
+    (forall t p q, sp_t inp t p q -> i_offset inp <= p ->
+        lexfrom inp p false = tapp (ttoks t) (lexfrom inp q true) /\ p < q) /\
+    (forall e p q, sp_e inp e p q -> i_offset inp <= p ->
+        lexfrom inp p false = tapp (etoks e) (lexfrom inp q true) /\ p < q).
+  Proof.
+    apply sp_mutind.
+    - intros z p q Hlt Hl Hdot Hv Hlo. split; [|exact Hlt].
+      rewrite (lexfrom_int inp p z q Hlo Hl Hlt Hdot Hv). rewrite tcons_tapp. reflexivity.
+    - intros pl e pr Hb1 _ IH Hb2 Hlo. destruct (IH ltac:(lia)) as [Hlx Hlt]. split; [|lia].
+      rewrite (lexfrom_lp inp pl false Hlo Hb1), Hlx, (lexfrom_rp inp pr true ltac:(lia) Hb2).
+      rewrite !tcons_tapp, !tapp_tapp. cbn [ftoks app]. reflexivity.
+    - intros f p q _ IH Hlo. exact (IH Hlo).
+    - intros t o po f p q _ IHt Hb _ IHf Hlo.
+      destruct (IHt Hlo) as [Hlx1 Hlt1]. destruct (IHf ltac:(lia)) as [Hlx3 Hlt3]. split; [|lia].
+      rewrite Hlx1, (lexfrom_op inp po (mul_code o) ltac:(lia) Hb) by (destruct o; reflexivity).
+      rewrite Hlx3. rewrite tcons_tapp, !tapp_tapp. cbn [ttoks]. rewrite <- app_assoc. reflexivity.
+    - intros t p q _ IH Hlo. exact (IH Hlo).
+    - intros e o po t p q _ IHe Hb _ IHt Hlo.
+      destruct (IHe Hlo) as [Hlx1 Hlt1]. destruct (IHt ltac:(lia)) as [Hlx3 Hlt3]. split; [|lia].
+      rewrite Hlx1, (lexfrom_op inp po (add_code o) ltac:(lia) Hb) by (destruct o; reflexivity).
+      rewrite Hlx3. rewrite tcons_tapp, !tapp_tapp. cbn [etoks]. rewrite <- app_assoc. reflexivity.
+  Qed.
+
+  Theorem spells_ref e :
+    sp_e inp e (i_offset inp) (i_offset inp + i_len inp) ->
+    arith_ref (i_data inp) (i_offset inp) = Some (eval e).
+  Proof.
+    intros H. destruct (proj2 (proj2 spells_lex) e _ _ H (N.le_refl _)) as [Hlx _].
+    unfold arith_ref, lex. rewrite <- (suf_offset inp) at 1. fold (lexfrom inp (i_offset inp) false).
+    rewrite Hlx. unfold lexfrom at 1. rewrite suf_end. cbn [lex_at tapp]. rewrite app_nil_r.
+    apply ref_complete.
+  Qed.
+
+  Lemma rules'_wf : wf_rules rules' site'.
+  Proof.
+    intros k body H. unfold nth_N in H.
+    destruct (N.to_nat k) as [|[|n]]; cbn in H; [| |destruct n; discriminate H];
+      injection H as <-; vm_compute; repeat split.
+  Qed.
+  Lemma rules'_mono : forall k body, nth_N rules' k = Some body -> mono body = true.
+  Proof.
+    intros k body H. unfold nth_N in H.
+    destruct (N.to_nat k) as [|[|n]]; cbn in H; [| |destruct n; discriminate H]; injection H as <-; reflexivity.
+  Qed.
+  Lemma rules'_ef : forall k body, nth_N rules' k = Some body -> endfree body = true.
+  Proof.
+    intros k body H. unfold nth_N in H.
+    destruct (N.to_nat k) as [|[|n]]; cbn in H; [| |destruct n; discriminate H]; injection H as <-; reflexivity.
+  Qed.
+
+  Lemma parse_top_strip fuel root t : nows inp ->
+    parse_top inp arith_rules fuel root = Ok t -> parse_top inp rules' fuel (strip root) = Ok t.
+  Proof.
+    intros Hn H. unfold parse_top in *. apply bind_ok in H. destruct H as (r & Hr & Hk).
+    unfold run in *. destruct (strip_sim inp arith_rules Hn fuel) as [Hp _].
+    rewrite (Hp _ _ _ _ _ _ Hr) by discriminate. cbn [bind]. exact Hk.
+  Qed.
+
+  (* C05_accepts on the white-space-free sub-language: if the input has no white-space byte and
+     spells a tree of the grammar, Parse (on THE grammar, with its trimming wrappers) returns a
+     node, not an error. *)
+  Theorem accepts_nows fuel t e :
+    nows inp -> sp_e inp e (i_offset inp) (i_offset inp + i_len inp) ->
+    parse_top inp arith_rules fuel (sentence arith_root) = Ok t ->
+    exists ns c, t = TopNode ns c.
+  Proof.
+    intros Hn Hsp Ht. apply (parse_top_strip _ _ _ Hn) in Ht.
+    change (strip (sentence arith_root)) with (sentence (PRef 0)) in Ht.
+    destruct (proj2 (proj2 (spells_valid inp Hbytes)) e _ _ Hsp (N.le_refl _)) as (d & Hd & He & _).
+    destruct (C04_sentence_complete inp rules' site' rules'_wf rules'_mono rules'_ef (PRef 0)
+                ltac:(vm_compute; reflexivity) eq_refl eq_refl fuel t d Ht Hd He) as (n0 & c & _ & ->).
+    eexists _, _. reflexivity.
+  Qed.
+End Accept2.
+
+(* C05_accepts_partial: for every input without white space that spells a tree e of the grammar,
+   the model of parsley.Evaluate on THE grammar, with the fuel of C02, returns the value of e (or
+   its division by zero) — the reference's answer — and never a parse error. *)
+Theorem C05_accepts_nows inp fuel e :
+  bytes_ok (i_data inp) -> nows inp -> (Termination.fuel_bound inp arith_K arith_Sz <= fuel)%nat ->
+  sp_e inp e (i_offset inp) (i_offset inp + i_len inp) ->
+  arith_ref (i_data inp) (i_offset inp) = Some (eval e) /\
+  arith_evaluate inp fuel = Ok (match eval e with AV z => EvValue (ValLit (VInt z)) | ADiv0 p => EvEvalErr (div0_err p) end).
+Proof.
+  intros Hb Hn Hf Hsp. pose proof (spells_ref inp e Hsp) as Hr. split; [exact Hr|].
+  destruct (C05_total inp fuel Hb Hf) as (ev & Hev & Hm). rewrite Hev. f_equal.
+  destruct ev as [v|pe|ee].
+  - destruct Hm as (z & -> & E). rewrite Hr in E. inversion E as [E']. rewrite E'. reflexivity.
+  - exfalso. unfold arith_evaluate in Hev. apply bind_ok in Hev. destruct Hev as (t & Ht & Hk).
+    destruct (accepts_nows inp Hb fuel t e Hn Hsp Ht) as (ns & c & ->).
+    destruct (arith_eval_result ns) as [[v|e0]| |]; discriminate.
+  - destruct Hm as (p & -> & E). rewrite Hr in E. inversion E as [E']. rewrite E'. reflexivity.
+Qed.
+
+(* non-vacuity: "(1-2)*-3/0" spells a tree *)
+Example sp_example :
+  let inp := mk_input (bytes "2*-3") 7 in
+  sp_e inp (ETrm (TMul (TFct (FInt 2 7)) Times 8 (FInt (-3) 9))) 7 11 /\ nows inp /\ bytes_ok (i_data inp).
+Proof.
+  cbn zeta. split; [|split; [reflexivity|repeat constructor]].
+  apply SpTrm. eapply SpMul with (po := 8).
+  - apply SpFct. apply SpInt; [reflexivity|reflexivity|reflexivity|reflexivity].
+  - reflexivity.
+  - apply (SpInt _ (-3) 9 11); reflexivity.
 Qed.
